@@ -27,6 +27,21 @@ CHECKS = {
     ),
 }
 
+CHECKS["C10"] = (
+    "exploration",
+    "deterministic simulation: seeded cache histories under a virtual clock (interposed clock_gettime + paused tokio) against a map-with-expiry model; drop-and-recreate for the disk cache",
+    "Seeded search over put/put_with_ttl/get/contains/remove/clear/size/stats/advance(/recreate) histories on the real MemoryCache (all five policies, limits from 1 entry / 1 byte) and DiskCache (sub-directories, background tasks) with every clock read virtual: each read is judged 'latest value or nothing' against the model, bounds are checked after every operation, reported size/usage against a probe of every key, and TTL behaviour across instances at generated instants before/after expiry. Sampling, not proof.",
+    "Trusted: the model (relaxation: 'nothing' is accepted whenever an eviction was possible since the put), libc interposition of the clock, tokio's paused clock, tmpfs. Reads within 1us of an expiry instant are not judged.",
+    "3/C10",
+)
+CHECKS["C05"] = (
+    "exploration",
+    "deterministic simulation: seeded long bucket-targeted histories with save + reload into fresh instances against BTreeMap reference models",
+    "Seeded search over index histories (single operations and bursts of up to 1400 entries aimed at one bucket so the bounded update section fills) and residency histories (incl. the >10000-key batch delete path), each compared operation by operation with a BTreeMap model: lookups of touched and never-inserted keys, counts, enumeration, truthfulness of returned booleans, and the same after save + load into a fresh manager on the same directory.",
+    "Trusted: the BTreeMap models, tmpfs. Zero-prefix keys excluded (format's empty marker). Crash during save is C06.",
+    "3/C05",
+)
+
 PENDING = {}
 
 
